@@ -11,7 +11,7 @@ theorem shape_createBatch (s : State) (u bp t : Nat) : Shape s (createBatch s u 
   unfold createBatch
   model_split
   · exact Shape.refl s
-  · exact ⟨⟨id, _, GroupFrame.id, by simp; rfl⟩, ⟨[], by simp⟩, ⟨id, [], JobFrame.id, by simp⟩⟩
+  · exact ⟨⟨id, _, GroupFrame.id, by simp; rfl⟩, ⟨[], by simp⟩, ⟨id, [], JobFrame.id, by simp⟩, JobsUnique.of_jobs_eq rfl⟩
 
 theorem shape_createUpdate (s : State) (b t nj ng u : Nat) : Shape s (createUpdate s b t nj ng u).1 := by
   unfold createUpdate
@@ -23,7 +23,7 @@ theorem shape_insertGroup (s s' : State) (b upd gid parent : Nat) (h : insertGro
   unfold insertGroup at h
   split_ifs at h
   simp only [Option.some.injEq] at h; subst h
-  exact ⟨⟨id, _, GroupFrame.id, by simp; rfl⟩, ⟨[], by simp⟩, ⟨id, [], JobFrame.id, by simp⟩⟩
+  exact ⟨⟨id, _, GroupFrame.id, by simp; rfl⟩, ⟨[], by simp⟩, ⟨id, [], JobFrame.id, by simp⟩, JobsUnique.of_jobs_eq rfl⟩
 
 theorem foldGroups_none (b upd : Nat) (u : Update) (l : List GroupSpec) :
     l.foldl (fun acc sp => acc.bind fun st =>
@@ -61,12 +61,24 @@ theorem shape_insertJobs (s : State) (b upd user : Nat) (specs : List JobSpec) :
   unfold insertJobs
   model_split
   all_goals first | exact Shape.refl s | skip
-  exact ⟨⟨id, [], GroupFrame.id, by simp⟩, ⟨[], by simp⟩, ⟨id, _, JobFrame.id, by simp; rfl⟩⟩
+  refine ⟨⟨id, [], GroupFrame.id, by simp⟩, ⟨[], by simp⟩, ⟨id, _, JobFrame.id, by simp; rfl⟩, ?_⟩
+  intro hu
+  rename_i hdup
+  refine jobsUnique_append s b _ ?_ ?_ ?_ hu
+  · intro x hx; rw [List.mem_map] at hx; obtain ⟨sp, _, rfl⟩ := hx; rfl
+  · intro x hx
+    have h1 := hdup
+    simp only [not_or, Bool.not_eq_true, List.any_eq_false, Decidable.not_not] at h1
+    have := h1.1 x hx
+    simpa using this
+  · have h1 := hdup
+    simp only [not_or, Decidable.not_not] at h1
+    exact h1.2
 
 theorem shape_cancelGroup (s : State) (b g : Nat) : Shape s (cancelGroup s b g).1 := by
   unfold cancelGroup
   model_split
-  all_goals first | exact Shape.refl s | exact ⟨⟨id, [], GroupFrame.id, by simp⟩, ⟨_, rfl⟩, ⟨id, [], JobFrame.id, by simp⟩⟩
+  all_goals first | exact Shape.refl s | exact ⟨⟨id, [], GroupFrame.id, by simp⟩, ⟨_, rfl⟩, ⟨id, [], JobFrame.id, by simp⟩, JobsUnique.of_jobs_eq rfl⟩
 
 theorem shape_deleteBatch (s : State) (b : Nat) : Shape s (deleteBatch s b).1 := by
   unfold deleteBatch
@@ -88,9 +100,9 @@ theorem shape_commitUpdate (s : State) (b upd : Nat) : Shape s (commitUpdate s b
   unfold commitUpdate
   model_split
   all_goals first | exact Shape.refl s | exact Shape.of_eq rfl rfl rfl | skip
-  · exact ⟨⟨_, [], groupFrame_setStateJobs _ _ _, by rw [List.append_nil]⟩, ⟨[], by simp⟩, ⟨id, [], JobFrame.id, by simp⟩⟩
+  · exact ⟨⟨_, [], groupFrame_setStateJobs _ _ _, by rw [List.append_nil]⟩, ⟨[], by simp⟩, ⟨id, [], JobFrame.id, by simp⟩, JobsUnique.of_jobs_eq rfl⟩
   · refine Shape.trans (b := _) ?_ (shape_updateJobs _ _ _ ?_)
-    · exact ⟨⟨_, [], groupFrame_setStateJobs _ _ _, by rw [List.append_nil]⟩, ⟨[], by simp⟩, ⟨id, [], JobFrame.id, by simp⟩⟩
+    · exact ⟨⟨_, [], groupFrame_setStateJobs _ _ _, by rw [List.append_nil]⟩, ⟨[], by simp⟩, ⟨id, [], JobFrame.id, by simp⟩, JobsUnique.of_jobs_eq rfl⟩
     · intro x
       refine ⟨rfl, rfl, rfl, rfl, rfl, rfl, rfl, ?_⟩
       intro hx; dsimp only; split_ifs <;> simp_all
@@ -164,7 +176,7 @@ theorem shape_startLike (s : State) (b j a i : Nat) (ts : Int) (d : Nat) (need :
 theorem shape_markGroupsComplete (s : State) (b g : Nat) : Shape s (markGroupsComplete s b g) := by
   unfold markGroupsComplete
   exact ⟨⟨_, [], GroupFrame.ite _ (F := fun x => { x with state := .complete }) (fun _ => ⟨rfl, rfl, rfl, rfl⟩),
-    by rw [List.append_nil]⟩, ⟨[], by simp⟩, ⟨id, [], JobFrame.id, by simp⟩⟩
+    by rw [List.append_nil]⟩, ⟨[], by simp⟩, ⟨id, [], JobFrame.id, by simp⟩, JobsUnique.of_jobs_eq rfl⟩
 
 theorem shape_completePrep (s : State) (b j : Nat) (att inst : Option Nat) (st e : Option Int) (r : String) (d : Nat)
     (job : Job) : Shape s (completePrep s b j att inst st e r d job) := by
@@ -183,7 +195,7 @@ theorem groupFrame_tally (ns : JState) : GroupFrame (tally ns) := fun _ => ⟨rf
 
 theorem shape_tallyGroups (s : State) (b g : Nat) (ns : JState) : Shape s (tallyGroups s b g ns) := by
   unfold tallyGroups
-  exact ⟨⟨_, [], GroupFrame.ite _ (groupFrame_tally ns), by rw [List.append_nil]⟩, ⟨[], by simp⟩, ⟨id, [], JobFrame.id, by simp⟩⟩
+  exact ⟨⟨_, [], GroupFrame.ite _ (groupFrame_tally ns), by rw [List.append_nil]⟩, ⟨[], by simp⟩, ⟨id, [], JobFrame.id, by simp⟩, JobsUnique.of_jobs_eq rfl⟩
 
 theorem shape_completeBatchIfDone (s : State) (b : Nat) : Shape s (completeBatchIfDone s b) := Shape.of_eq rfl rfl rfl
 
